@@ -24,7 +24,7 @@ type caseC08 struct {
 }
 
 func genC08(t *rapid.T, _ *evid.Rec) caseC08 {
-	o := gen.Opts{AllowMany: true, Controls: true, InvalidUTF8: true, KeepTrailingCR: true}
+	o := gen.Opts{AllowMany: true, Controls: true, InvalidUTF8: true, KeepTrailingCR: true, TabSeparators: true}
 	d := gen.Doc(t, o)
 	return caseC08{Doc: d, Layout: gen.Layout(t, len(d.Records)), Workers: rapid.IntRange(2, 9).Draw(t, "workers")}
 }
